@@ -1491,6 +1491,20 @@ Proof.
   apply split_chunks_total. unfold nlen in E. lia.
 Qed.
 
+Lemma dec_SSZProof_total b : dec_SSZProof b <> Panic.
+Proof.
+  unfold dec_SSZProof. np.
+  match goal with Hd : divide_int2 _ _ _ = Ok ?num |- _ => apply divide_int2_inv in Hd as (_ & Hd & _) end.
+  match goal with |- bind ?r _ <> Panic => destruct r eqn:Es; cbn [bind]; try discriminate end.
+  apply split_chunks_total in Es; [destruct Es|]. unfold nlen in *. lia.
+Qed.
+Lemma dec_MasterAcc_total b : dec_MasterAcc b <> Panic.
+Proof.
+  unfold dec_MasterAcc. np.
+  match goal with Hd : divide_int2 _ _ _ = Ok ?num |- _ => apply divide_int2_inv in Hd as (_ & Hd & _) end.
+  apply split_chunks_total. unfold nlen in *. lia.
+Qed.
+
 Lemma rmap_total {A B} (f : A -> B) (r : res A) : r <> Panic -> rmap f r <> Panic.
 Proof. unfold rmap. destruct r; cbn [bind]; [discriminate|discriminate|auto]. Qed.
 
@@ -1506,7 +1520,8 @@ Proof.
           | apply dec_EphPayload_total | apply dec_OfferEphKey_total | apply dec_OfferEphHeader_total
           | apply dec_Receipts_total | apply dec_HeaderRecord_total
           | apply dec_LcUpdateKey_total | apply dec_LcBootstrapKey_total | apply dec_LcSlotKey_total
-          | apply dec_BodyLegacy_total | apply dec_BodyShanghai_total | apply dec_EpochAcc_total ].
+          | apply dec_BodyLegacy_total | apply dec_BodyShanghai_total | apply dec_EpochAcc_total
+          | apply dec_SSZProof_total | apply dec_MasterAcc_total ].
 Qed.
 
 Lemma portalwire_decoders_total : forall s b,
@@ -2156,4 +2171,137 @@ Qed.
 Lemma BodyShanghai_as_found_canonicity_refuted : ~ canonical (dec_BodyShanghai false) enc_BodyShanghai.
 Proof.
   intros H. specialize (H [x0c;x00;x00;x00;x0c;x00;x00;x00;x0c;x00;x00;x00;x00;x00;x00;x00] ([], [], []) eq_refl). vm_compute in H. discriminate.
+Qed.
+
+(* ================================================================== prover-side history containers *)
+(* history.BlockHeaderWithProof is the same generated code as types/history.BlockHeaderWithProof *)
+Lemma HeaderWithProofH_codec : codec_ok enc_HeaderWithProof dec_HeaderWithProof (fun _ => True) HeaderWithProof_lim.
+Proof. exact HeaderWithProof_codec. Qed.
+
+(* a list of 32-byte items with a maximum count, after a fixed prefix *)
+Definition hashes_lim (mx : N) (l : list bytes) : Prop := nlen l <= mx /\ Forall (fun c => length c = 32%nat) l.
+
+Lemma dec_hashes mx (l : list bytes) : hashes_lim mx l ->
+  bind (divide_int2 (nlen (concat l)) 32 mx) (fun num => split_chunks (N.to_nat num) 32 (concat l)) = Ok l.
+Proof.
+  intros [H1 H2]. pose proof (concat_length_const 32 l H2) as Hc.
+  assert (Hn : nlen (concat l) = 32 * nlen l) by (unfold nlen; lia).
+  unfold divide_int2. rewrite Hn. change (32 =? 0) with false. cbv iota.
+  replace (32 * nlen l mod 32 =? 0) with true by lia. cbn [negb]. replace (32 * nlen l / 32) with (nlen l) by lia.
+  replace (mx <? nlen l) with false by lia. cbn [bind]. replace (N.to_nat (nlen l)) with (length l) by (unfold nlen; lia).
+  rewrite <- (app_nil_r (concat l)). now apply split_chunks_layout.
+Qed.
+Lemma dec_hashes_inv mx t l :
+  bind (divide_int2 (nlen t) 32 mx) (fun num => split_chunks (N.to_nat num) 32 t) = Ok l -> t = concat l /\ hashes_lim mx l.
+Proof.
+  destruct (divide_int2 (nlen t) 32 mx) as [num| |] eqn:Ed; cbn [bind]; try discriminate. intros H.
+  apply divide_int2_inv in Ed as (_ & Ht & Hmx). apply split_chunks_inv in H as (Hl & Hf & Hc).
+  rewrite firstn_all2 in Hc by (unfold nlen in Ht; lia). split; [now rewrite Hc|]. split; [unfold nlen; lia|exact Hf].
+Qed.
+Lemma vec32_in l : Forall (fun c => length c = 32%nat) l -> vec_items 32 l = Ok (concat l).
+Proof. exact (vecn_items_in 32 l). Qed.
+Lemma vec32_inv l b : vec_items 32 l = Ok b -> b = concat l /\ Forall (fun c => length c = 32%nat) l.
+Proof. exact (vecn_items_inv 32 l b). Qed.
+
+(* ---- MasterAccumulator *)
+Definition MasterAcc_lim (v : list bytes) : Prop := hashes_lim L_HistoricalEpochs v.
+Definition MasterAcc_layout (v : list bytes) : bytes := u32_enc 4 ++ concat v.
+
+Lemma dec_MasterAcc_prefix t :
+  dec_MasterAcc (u32_enc 4 ++ t) = bind (divide_int2 (nlen t) 32 L_HistoricalEpochs) (fun num => split_chunks (N.to_nat num) 32 t).
+Proof.
+  unfold dec_MasterAcc.
+  assert (Hn : nlen (u32_enc 4 ++ t) = 4 + nlen t) by (rewrite nlen_app; unfold u32_enc; rewrite nlen_le_enc; lia).
+  rewrite Hn. replace (4 + nlen t <? 4) with false by lia.
+  unfold u32_enc. cbn [le_enc]. step.
+  match goal with |- context [_ <? le_dec ?l] => change l with (le_enc 4 4) end.
+  rewrite (le_dec_enc 4 4) by (vm_compute; reflexivity).
+  replace (4 + nlen t <? 4) with false by lia. change (4 =? 4) with true. cbn [negb].
+  rewrite tail_from_ok by (rewrite !nlen_cons; lia).
+  change (N.to_nat 4) with 4%nat. step. reflexivity.
+Qed.
+Lemma dec_MasterAcc_split b v : dec_MasterAcc b = Ok v -> exists t, b = u32_enc 4 ++ t.
+Proof.
+  unfold dec_MasterAcc. intros H.
+  destruct (nlen b <? 4) eqn:Hs; [discriminate|].
+  explode b 4%nat t. step_in H.
+  match type of H with context [_ <? le_dec ?l] => set (o := le_dec l) in *; assert (Ho : le_enc 4 o = l) by (apply le_enc_of_dec; reflexivity) end.
+  destruct (_ <? o) eqn:E1 in H; [discriminate|].
+  destruct (o =? 4) eqn:E2 in H; cbn [negb] in H; [|discriminate].
+  assert (o = 4) by lia. exists t. unfold u32_enc. replace 4 with o by assumption. rewrite Ho. reflexivity.
+Qed.
+
+Lemma MasterAcc_codec : codec_ok enc_MasterAcc dec_MasterAcc (fun _ => True) MasterAcc_lim.
+Proof.
+  apply (derive_codec_ok _ _ MasterAcc_layout); unfold MasterAcc_lim, MasterAcc_layout.
+  - intros v [H1 H2]. unfold enc_MasterAcc. replace (L_HistoricalEpochs <? nlen v) with false by lia. now rewrite (vec32_in v H2).
+  - apply enc_out_from.
+    + intros v b. unfold enc_MasterAcc. destruct (L_HistoricalEpochs <? nlen v) eqn:E; [discriminate|].
+      destruct (vec_items 32 v) as [w| |] eqn:Ev; cbn [bind]; try discriminate. intros _.
+      apply vec32_inv in Ev as [_ Hf]. split; [lia|exact Hf].
+    + intros v. unfold enc_MasterAcc. destruct (L_HistoricalEpochs <? nlen v); [discriminate|].
+      destruct (vec_items 32 v) eqn:Ev; cbn [bind]; try discriminate. now apply vecn_items_total in Ev.
+  - intros v _ Hl. rewrite dec_MasterAcc_prefix. now apply dec_hashes.
+  - intros b v H. destruct (dec_MasterAcc_split _ _ H) as [t ->]. rewrite dec_MasterAcc_prefix in H.
+    apply dec_hashes_inv in H as [-> Hl]. auto.
+Qed.
+
+(* ---- SSZProof *)
+Definition SSZProof_lim (v : bytes * list bytes) : Prop := nlen (fst v) = 32 /\ hashes_lim L_Witnesses (snd v).
+Definition SSZProof_layout (v : bytes * list bytes) : bytes := fst v ++ u32_enc 36 ++ concat (snd v).
+
+Lemma dec_SSZProof_prefix leaf t : nlen leaf = 32 ->
+  dec_SSZProof (leaf ++ u32_enc 36 ++ t) =
+  bind (bind (divide_int2 (nlen t) 32 L_Witnesses) (fun num => split_chunks (N.to_nat num) 32 t)) (fun ws => Ok (leaf, ws)).
+Proof.
+  intros Hl. unfold dec_SSZProof. cbv zeta.
+  assert (Ll : length leaf = 32%nat) by (unfold nlen in Hl; lia).
+  assert (L4 : length (u32_enc 36) = 4%nat) by (unfold u32_enc; apply le_enc_length).
+  assert (Hn : nlen (leaf ++ u32_enc 36 ++ t) = 36 + nlen t) by (rewrite !nlen_app; unfold u32_enc; rewrite nlen_le_enc; lia).
+  rewrite Hn. replace (36 + nlen t <? 36) with false by lia.
+  rewrite slice_app0 by exact Ll. cbn [bind].
+  rewrite (read_offset_at_app leaf t 36 32 Ll) by (vm_compute; reflexivity). cbn [bind].
+  replace (36 + nlen t <? 36) with false by lia. change (36 =? 36) with true. cbn [negb].
+  rewrite (app_assoc leaf). rewrite tail_from_app by (rewrite nlen_app; unfold u32_enc; rewrite nlen_le_enc; lia). cbn [bind].
+  destruct (divide_int2 (nlen t) 32 L_Witnesses) as [num| |]; cbn [bind]; reflexivity.
+Qed.
+
+Lemma dec_SSZProof_split b v : dec_SSZProof b = Ok v -> exists leaf t, b = leaf ++ u32_enc 36 ++ t /\ nlen leaf = 32.
+Proof.
+  unfold dec_SSZProof. cbv zeta. intros H.
+  destruct (nlen b <? 36) eqn:Hs; [discriminate|].
+  destruct (slice b 0 32) as [leaf| |] eqn:E1; cbn [bind] in H; try discriminate.
+  destruct (read_offset_at b 32) as [o1| |] eqn:E2; cbn [bind] in H; try discriminate.
+  destruct (nlen b <? o1) eqn:E3; [discriminate|]. destruct (o1 =? 36) eqn:E4; cbn [negb] in H; [|discriminate].
+  apply slice_inv in E1 as [_ E1]. cbn [skipn Nat.sub] in E1. change (32 - 0)%nat with 32%nat in E1.
+  unfold read_offset_at in E2. destruct (slice b 32 (32 + 4)) as [s| |] eqn:E5; cbn [bind] in E2; try discriminate.
+  apply slice_inv in E5 as [_ E5]. replace (32 + 4 - 32)%nat with 4%nat in E5 by lia.
+  apply read_u32_inv in E2 as (_ & Hf & _).
+  assert (Ls : length s = 4%nat) by (rewrite E5, firstn_length, skipn_length; unfold nlen in Hs; lia).
+  rewrite firstn_all2 in Hf by lia.
+  exists leaf, (skipn 36 b). split.
+  - assert (o1 = 36) by lia. subst o1. rewrite <- Hf, E5, E1.
+    replace (skipn 36 b) with (skipn 4 (skipn 32 b)) by (rewrite skipn_add; reflexivity). now rewrite !firstn_skipn.
+  - rewrite E1. change 32%nat with (N.to_nat 32). apply nlen_firstn. lia.
+Qed.
+
+Lemma SSZProof_codec : codec_ok enc_SSZProof dec_SSZProof (fun _ => True) SSZProof_lim.
+Proof.
+  apply (derive_codec_ok _ _ SSZProof_layout); unfold SSZProof_lim, SSZProof_layout.
+  - intros [leaf ws] [H1 [H2 H3]]. cbn [fst snd] in *. unfold enc_SSZProof, enc_bytes_exact.
+    replace (nlen leaf =? 32) with true by lia. cbn [negb bind]. replace (L_Witnesses <? nlen ws) with false by lia.
+    rewrite (vec32_in ws H3). cbn [bind]. now rewrite <- app_assoc.
+  - apply enc_out_from.
+    + intros [leaf ws] b. cbn [fst snd]. unfold enc_SSZProof, enc_bytes_exact.
+      destruct (nlen leaf =? 32) eqn:E0; cbn [negb bind]; [|discriminate].
+      destruct (L_Witnesses <? nlen ws) eqn:E; [discriminate|].
+      destruct (vec_items 32 ws) as [w| |] eqn:Ev; cbn [bind]; try discriminate. intros _.
+      apply vec32_inv in Ev as [_ Hf]. split; [lia|]. split; [lia|exact Hf].
+    + intros [leaf ws]. unfold enc_SSZProof, enc_bytes_exact. destruct (negb (nlen leaf =? 32)); cbn [bind]; [discriminate|].
+      destruct (L_Witnesses <? nlen ws); [discriminate|].
+      destruct (vec_items 32 ws) eqn:Ev; cbn [bind]; try discriminate. now apply vecn_items_total in Ev.
+  - intros [leaf ws] _ [H1 H2]. cbn [fst snd] in *. rewrite dec_SSZProof_prefix by exact H1. now rewrite (dec_hashes _ _ H2).
+  - intros b [leaf ws] H. destruct (dec_SSZProof_split _ _ H) as (l0 & t & -> & Hl0). rewrite dec_SSZProof_prefix in H by exact Hl0.
+    destruct (bind (divide_int2 (nlen t) 32 L_Witnesses) _) as [ws0| |] eqn:Ed; cbn [bind] in H; try discriminate.
+    apply Ok_inj in H. injection H as -> ->. apply dec_hashes_inv in Ed as [-> Hl]. cbn [fst snd]. auto.
 Qed.
